@@ -52,7 +52,7 @@ static void world_init(int) {
 }
 
 // run one program: returns false if the loader rejected it
-static bool run_prog(uint64_t idx, const std::vector<uint8_t> &b, ShardCtl &c, const char *family) {
+static bool run_prog(uint64_t idx, const std::vector<uint8_t> &b, ShardCtl &c, const char *family, size_t maxdepth = 0) {
     const Face &face = *g_w->face; const Silf &silf = *face.chooseSilf(0);
     // exact-size heap copy so that ASan sees any decoder over-read of the bytecode
     uint8_t *bc = (uint8_t*)malloc(b.size()); memcpy(bc, b.data(), b.size());
@@ -68,6 +68,7 @@ static bool run_prog(uint64_t idx, const std::vector<uint8_t> &b, ShardCtl &c, c
             const char *why = nullptr;
             switch (want.st) {
             case ref::VmResult::OK:
+                if (st == Machine::stack_overflow && maxdepth >= Machine::STACK_MAX) break;      // deeper than the machine's stack: refusing at run time is the documented resource limit
                 if (want.leftover == 0) { if (st != Machine::finished) why = "status not finished"; else if (ret != want.value) why = "wrong value"; }
                 else if (!((st == Machine::stack_not_empty && ret == 0) || (st == Machine::finished && ret == want.value))) why = "leftover stack: neither stack_not_empty/0 nor finished/value";
                 break;
@@ -118,11 +119,20 @@ static void setup_operands(Runner &r, const Tier &) {
     r.body = [mk](uint64_t i, ShardCtl &c) { static std::vector<uint8_t> b; mk(i, b); run_prog(i, b, c, "operand_decoding"); };
 }
 
+// deep stacks: D pushes followed by D-1 binary operators, D = 1 .. 1100 (around the machine's 1024-entry stack), three operators, action and constraint form
+static void setup_deep(Runner &r, const Tier &) {
+    r.ncases = 1100 * 3; r.alarm_every = 64; r.case_alarm_s = 60; r.shard_init = world_init;
+    auto mk = [](uint64_t i, std::vector<uint8_t> &b) { b.clear(); size_t D = size_t(i / 3) + 1; int op = int(i % 3); for (size_t k = 0; k < D; ++k) { b.push_back(ref::R_PUSH_BYTE); b.push_back(uint8_t(op == 2 ? (k % 2) : 1)); } static const uint8_t O[3] = { ref::R_ADD, ref::R_SUB, ref::R_OR }; for (size_t k = 1; k < D; ++k) b.push_back(O[op]); b.push_back(ref::R_POP_RET); };
+    r.describe = [](uint64_t i) { JObj o; o.kv("family", "deep_stack").kv("pushes", (unsigned long long)(i / 3 + 1)).kv("operator", i % 3 == 0 ? "ADD" : i % 3 == 1 ? "SUB" : "OR"); return o; };
+    r.body = [mk](uint64_t i, ShardCtl &c) { static std::vector<uint8_t> b; mk(i, b); run_prog(i, b, c, "deep_stack", size_t(i / 3) + 1); };
+}
+
 static void extra(const Runner &r, JObj &o) { o.kv("digest", (unsigned long long)r.counters[5]); }
 
 int main(int argc, char **argv) {
     std::vector<Sub> subs;
     { Sub s; s.name = "operands"; s.setup = setup_operands; s.counter_names = { "programs", "accepted", "rejected", "rejected_although_reference_evaluates" }; s.extra = extra; subs.push_back(s); }
+    { Sub s; s.name = "deep_stack"; s.setup = setup_deep; s.counter_names = { "programs", "accepted", "rejected", "rejected_although_reference_evaluates" }; s.extra = extra; subs.push_back(s); }
     { Sub s; s.name = "programs"; s.setup = setup_programs; s.budget_quick = 100; s.budget_thorough = 900; s.counter_names = { "programs", "accepted", "rejected", "rejected_although_reference_evaluates" }; s.extra = extra; subs.push_back(s); }
     return check_main(argc, argv, "C07", subs);
 }
